@@ -86,6 +86,23 @@ def oracle(case):
             else:
                 idx = np.array([i for i in case["idx"] if i < m], dtype=int)
             full_pred = est.predict(Q)
+            # the fitted model is all a prediction depends on: a copy of it (copy.deepcopy, pickle) predicts alike
+            import copy
+            import pickle
+            twins = [("copy.deepcopy", copy.deepcopy(est))]
+            try:
+                twins.append(("pickle", pickle.loads(pickle.dumps(est))))
+            except Exception:
+                pass  # user-written lambdas are not picklable
+            for how, twin in twins:
+                tp = twin.predict(Q)
+                if not np.array_equal(tp, full_pred):
+                    raise Violation(f"{label}: the model restored through {how} predicts {np.asarray(tp).tolist()}, the fitted "
+                                    f"model {np.asarray(full_pred).tolist()}")
+                if not kauri and not np.array_equal(twin.predict_proba(Q), est.predict_proba(Q)):
+                    raise Violation(f"{label}: the model restored through {how} gives other probabilities than the fitted model")
+                if hasattr(twin, "find_active_points") and list(twin.find_active_points(Q)) != list(est.find_active_points(Q)):
+                    raise Violation(f"{label}: find_active_points differs on the model restored through {how}")
             sub_pred = est.predict(Q[idx]) if len(idx) else np.zeros(0, dtype=int)
             if kauri:
                 if not np.array_equal(sub_pred, full_pred[idx]):
